@@ -285,30 +285,54 @@ def check(ctx, report):
 
 
 def scan_origin(report, scan):
-    """every construct of the separator scanner that walks over the input - a ``for`` over a range bounded by the input
-    length, a find / index / split / partition of the input - starts at the item offset: _parse_string_array calls the
-    scanner once per item, a scan from the beginning of the input makes the whole array quadratic"""
+    """every construct of the separator scanner (and of the helper methods it hands the offset to) that walks over the input
+    - a ``for`` over a range bounded by the input length, a find / index / split / partition of the input - starts at the
+    item offset: _parse_string_array calls the scanner once per item, a scan from the beginning of the input makes the whole
+    array quadratic"""
     params = [a.arg for a in scan.node.args.args]
-    origin = params[2] if len(params) > 2 else 'item_offset'
+    n_sites = 0
+    work = [(scan, params[2] if len(params) > 2 else 'item_offset')]
+    seen = set()
 
     def on_input(n):
         return 'self._parsable' in ast.unparse(n)
+    while work:
+        f, origin = work.pop()
+        if (f.qualname, origin) in seen:
+            continue
+        seen.add((f.qualname, origin))
+        report.touch(f)
 
-    def starts_at_origin(n):
-        return isinstance(n, ast.AST) and any(isinstance(x, ast.Name) and x.id == origin for x in ast.walk(n))
-    n_sites = 0
-    for n in ast.walk(scan.node):
-        if isinstance(n, ast.For) and on_input(n.iter):
-            n_sites += 1
-            it = n.iter
-            ok = isinstance(it, ast.Call) and isinstance(it.func, ast.Name) and it.func.id == 'range' and len(it.args) >= 2 and starts_at_origin(it.args[0])
-            if not ok:
-                report.add('C19.R3', scan.construct + '@origin', 'separator scan does not start at the item offset (%s)' % ast.unparse(it))
-        if isinstance(n, ast.Call) and isinstance(n.func, ast.Attribute) and n.func.attr in ('find', 'index', 'rfind', 'rindex', 'split', 'partition', 'count') \
-                and ast.unparse(n.func.value) == 'self._parsable':
-            n_sites += 1
-            if n.func.attr in ('split', 'partition') or len(n.args) < 2 or not starts_at_origin(n.args[1]):
-                report.add('C19.R3', scan.construct + '@origin', 'separator scan does not start at the item offset (%s)' % ast.unparse(n))
+        def starts_at_origin(n, origin=origin):
+            return isinstance(n, ast.AST) and origin is not None and any(isinstance(x, ast.Name) and x.id == origin for x in ast.walk(n))
+        for n in ast.walk(f.node):
+            if isinstance(n, ast.For) and on_input(n.iter):
+                n_sites += 1
+                it = n.iter
+                ok = isinstance(it, ast.Call) and isinstance(it.func, ast.Name) and it.func.id == 'range' and len(it.args) >= 2 and starts_at_origin(it.args[0])
+                if not ok:
+                    report.add('C19.R3', scan.construct + '@origin', 'separator scan does not start at the item offset (%s%s)' % (
+                        ast.unparse(it), '' if f is scan else ' in ' + f.qualname))
+            if isinstance(n, ast.Call) and isinstance(n.func, ast.Attribute) and n.func.attr in ('find', 'index', 'rfind', 'rindex', 'split', 'partition', 'count') \
+                    and ast.unparse(n.func.value) == 'self._parsable':
+                n_sites += 1
+                if n.func.attr in ('split', 'partition') or len(n.args) < 2 or not starts_at_origin(n.args[1]):
+                    report.add('C19.R3', scan.construct + '@origin', 'separator scan does not start at the item offset (%s%s)' % (
+                        ast.unparse(n), '' if f is scan else ' in ' + f.qualname))
+            if isinstance(n, ast.Call) and isinstance(n.func, ast.Attribute) and isinstance(n.func.value, ast.Name) and n.func.value.id in ('self', 'cls') \
+                    and f.cls is not None:
+                m = f.cls.resolve(n.func.attr)
+                if m is None or m.module.external or m.name in ('_apply_item_class',):
+                    continue
+                mp = [a.arg for a in m.node.args.args if a.arg not in ('self', 'cls')]
+                passed = None
+                for i, a in enumerate(n.args):
+                    if i < len(mp) and starts_at_origin(a):
+                        passed = mp[i]
+                for kw in n.keywords:
+                    if kw.arg in mp and starts_at_origin(kw.value):
+                        passed = kw.arg
+                work.append((m, passed))
     if not n_sites:
         report.error('C19.R3: no construct scanning the input found in %s (anchor moved)' % scan.qualname)
 
